@@ -174,7 +174,7 @@ def run(ctx):
 
     def is_F2(l):  # asn_ulong2INTEGER >= 2^63
         t = l.split(); return t[0] == "ulong2I" and int(t[1]) >= (1 << 63)
-    def is_F3(l):  # asn_INTEGER2umax/ulong on a negative INTEGER
+    def is_F3(l):  # asn_INTEGER2umax/ulong on a negative INTEGER (finding fixed: match_finding returns None, the failure is a violation)
         t = l.split()
         return t[0] in ("I2umax", "I2ulong") and t[1] != "-" and int(t[1][:2], 16) >= 0x80
     unexplained = []
